@@ -127,7 +127,7 @@ def haynesville():
     return pd.read_csv(env.REPO / "tests/data/pvt_gas_HAYNESVILLE SHALE_20.csv")
 
 
-def call_comparison(rows: list[dict], filter_: bool, window, M: float, tau: float, p_initial: float):
+def call_comparison(rows: list[dict], filter_: bool, window, M: float, tau: float, p_initial: float, extra: dict | None = None):
     """rows: dicts Days, Gas, Pressure (floats, NaN allowed). Returns the artists of both axes and the scales."""
     import matplotlib.pyplot as plt  # noqa: PLC0415
     import pandas as pd  # noqa: PLC0415
@@ -136,6 +136,8 @@ def call_comparison(rows: list[dict], filter_: bool, window, M: float, tau: floa
     from bluebonnet.forecast import plot_production_comparison  # noqa: PLC0415
 
     prod = pd.DataFrame(rows, columns=["Days", "Gas", "Pressure"])
+    for name, col in (extra or {}).items():   # other metered columns of the same table (with gaps of their own)
+        prod[name] = col
     params = Parameters()
     params.add("M", M)
     params.add("tau", tau)
@@ -221,6 +223,10 @@ def real_reservoir(cfg: dict):
     nt, nx = cfg["nt"], cfg["nx"]
     if cfg["grid"] == "sqrt":
         t = np.linspace(0, math.sqrt(cfg["t_end"]), nt) ** 2
+    elif cfg["grid"] == "log":
+        t = np.logspace(-6, math.log10(cfg["t_end"]), nt)
+    elif cfg["grid"] == "restart":
+        t = 0.25 * cfg["t_end"] + np.linspace(0, math.sqrt(cfg["t_end"]), nt) ** 2
     else:
         rng = np.random.default_rng(cfg["grid_seed"])
         t = np.concatenate([[0.0], np.cumsum(rng.uniform(0.2, 1.8, nt - 1))]) * cfg["t_end"] / max(1, nt - 1)
@@ -233,7 +239,12 @@ def real_reservoir(cfg: dict):
             else:
                 res = SinglePhaseReservoir(nx, cfg["pf"], cfg["pi"],
                                            rdrv.flow_properties(rdrv.shipped_table("pvt_gas"), cfg["pi"]))
-                res.simulate(t)
+                if cfg.get("schedule") == "chokeback":
+                    u = np.linspace(0.0, 1.0, nt)
+                    sched = cfg["pf"] + (cfg["pi"] - cfg["pf"]) * 0.9 * np.clip((u - 0.4) / 0.3, 0.0, 1.0)
+                    res.simulate(t, pressure_fracface=sched)
+                else:
+                    res.simulate(t)
     finally:
         w.__exit__(None, None, None)
     # what the simulation produced, kept aside: every later figure of this object is judged against it, whatever earlier
@@ -339,7 +350,12 @@ def project_comparison(cfg: dict) -> dict:
         gas[rng.choice(n, max(1, n // 10), replace=False)] = 0.0
         press[rng.choice(n, max(1, n // 12), replace=False)] = np.nan
     rows = [{"Days": float(d), "Gas": float(g), "Pressure": float(p)} for d, g, p in zip(days, gas, press)]
-    out = call_comparison(rows, cfg["filter"], cfg["window"], cfg["M"], cfg["tau"], cfg["p_initial"])
+    extra = None
+    if cfg.get("extra_columns"):
+        water = rng.uniform(0.0, 5.0, n)
+        water[rng.choice(n, max(2, n // 6), replace=False)] = np.nan
+        extra = {"Water": water, "Comment": ["" if i % 7 else None for i in range(n)]}
+    out = call_comparison(rows, cfg["filter"], cfg["window"], cfg["M"], cfg["tau"], cfg["p_initial"], extra)
     keep = (gas > 0) & ~np.isnan(press) if cfg["filter"] else np.ones(n, dtype=bool)
     time = np.arange(int(keep.sum()), dtype=float) if cfg["filter"] else days
     want_x = time / cfg["tau"]
